@@ -136,6 +136,11 @@ class FunctionTranslator:
                         raise TranslationError(f"{self.module}.{self.fn}: re-raising handler of unexpected shape")
                     self.block(h.body[:-1], stack)
                     continue
+                if "ENotImplemented" in classes and "state_manager.set_step_status(Status.FAILED)" not in \
+                        [ast.unparse(x.value) for x in h.body if isinstance(x, ast.Expr)]:
+                    # the model turns a caught NotImplementedError of the data checker into a FAILED step
+                    raise TranslationError(f"{self.module}.{self.fn}: handler for NotImplementedError does not set "
+                                           f"the step status to FAILED")
                 caught.extend(classes)
                 self.block(h.body, stack)
             self.block(s.body, [caught] + stack)
@@ -264,6 +269,34 @@ def translate_checker(repo):
     return methods, annotated
 
 
+def translate_unordered(repo):
+    """checker methods that raise NotImplementedError when one of the two objects is an unordered list:
+         if not p.order_relevant or not q.order_relevant: raise NotImplementedError(...)
+    Any other `raise` inside AASDataChecker must be one of the known unreachable guards; a NotImplementedError
+    of another shape aborts the translation."""
+    path = os.path.join(repo, "sdk", "basyx", "aas", "examples", "data", "_helper.py")
+    tree = ast.parse(open(path).read())
+    cls = next((n for n in tree.body if isinstance(n, ast.ClassDef) and n.name == "AASDataChecker"), None)
+    if cls is None:
+        raise TranslationError("class AASDataChecker not found")
+    res = []
+    for fn in cls.body:
+        if not isinstance(fn, ast.FunctionDef):
+            continue
+        args = [a.arg for a in fn.args.args]
+        for n in ast.walk(fn):
+            if isinstance(n, ast.Raise) and n.exc is not None and "NotImplementedError" in ast.unparse(n.exc):
+                ok = False
+                for i in ast.walk(fn):
+                    if isinstance(i, ast.If) and n in i.body and len(args) >= 3:
+                        want = f"not {args[1]}.order_relevant or not {args[2]}.order_relevant"
+                        ok = ast.unparse(i.test) == want
+                if not ok:
+                    raise TranslationError(f"AASDataChecker.{fn.name}: NotImplementedError raised under an unrecognised guard")
+                res.append(fn.name)
+    return sorted(set(res))
+
+
 def eq_attributes(repo, cname):
     """attributes compared by <cname>.__eq__ in model/base.py: a conjunction of self.a == other.a"""
     tree = ast.parse(open(os.path.join(repo, "sdk", "basyx", "aas", "model", "base.py")).read())
@@ -301,7 +334,7 @@ def class_table(annotated):
     return rows
 
 
-def render(functions, methods, table):
+def render(functions, methods, table, unordered):
     L = ["(* GENERATED by tools/py2coq/compliance.py from the compliance tool and _helper.py - do not edit *)",
          "From Coq Require Import List String.", "From Basyx Require Import model.Compliance.",
          "Import ListNotations.", "Open Scope string_scope.", ""]
@@ -322,6 +355,9 @@ def render(functions, methods, table):
                         "; ".join(coq_str(d) for d in de) + "]))" for m, at, de in methods))
     L.append("].")
     L.append("")
+    L.append("(* checker methods raising NotImplementedError when either list has order_relevant = False *)")
+    L.append("Definition unordered_raises : list string := [" + "; ".join(coq_str(m) for m in unordered) + "].")
+    L.append("")
     L.append("Definition class_table : list (string * string * list string) := [")
     L.append(";\n".join(f"  ({coq_str(c)}, {coq_str(m)}, [" + "; ".join(coq_str(a) for a in at) + "])" for c, m, at in table))
     L.append("].")
@@ -333,9 +369,10 @@ def regenerate(repo=None):
     functions = translate_checks(repo)
     methods, annotated = translate_checker(repo)
     table = class_table(annotated)
-    text = render(functions, methods, table)
+    unordered = translate_unordered(repo)
+    text = render(functions, methods, table, unordered)
     common.write_if_changed(os.path.join(common.GEN, "Gen_Compliance.v"), text)
-    return {"functions": functions, "methods": methods, "table": table}
+    return {"functions": functions, "methods": methods, "table": table, "unordered": unordered}
 
 
 if __name__ == "__main__":
